@@ -182,7 +182,36 @@ fn gen_seq(max_len: usize, role_server: bool) -> Vec<Tok> {
     seq
 }
 
-pub(crate) fn run_server(net: &Shared, rec: &Rc<RefCell<Obs>>, ex: &mut Exec) {
+/// up to `$max` recv_data calls on `$s`; evaluates to 0 (more to read), 1 (end of body reported), 2 (failed)
+macro_rules! c03_body {
+    ($s:expr, $r:expr, $max:expr) => {{
+        let mut state = 0u8;
+        let mut calls = 0usize;
+        while calls < $max {
+            calls += 1;
+            match $s.recv_data().await {
+                Ok(Some(d)) => {
+                    let v = read_all(d);
+                    obs::ev("app.recv_data", 0, v.len() as u64);
+                    $r.borrow_mut().body.extend(v)
+                }
+                Ok(None) => {
+                    $r.borrow_mut().data_end = Some(Ok(()));
+                    state = 1;
+                    break;
+                }
+                Err(e) => {
+                    $r.borrow_mut().data_end = Some(Err(sout(&e)));
+                    state = 2;
+                    break;
+                }
+            }
+        }
+        state
+    }};
+}
+
+pub(crate) fn run_server(net: &Shared, rec: &Rc<RefCell<Obs>>, ex: &mut Exec, split_after: usize) {
     let conn: SimConn = net::conn(net, SERVER);
     let r = rec.clone();
     ex.spawn("srv", async move {
@@ -213,22 +242,32 @@ pub(crate) fn run_server(net: &Shared, rec: &Rc<RefCell<Obs>>, ex: &mut Exec) {
                             o.start_line = format!("{} {}", req.method(), req.uri());
                             o.got_headers = fields_of(req.headers());
                         }
-                        loop {
-                            match s.recv_data().await {
-                                Ok(Some(d)) => {
-                                    let v = read_all(d);
-                                    obs::ev("app.recv_data", 0, v.len() as u64);
-                                    r2.borrow_mut().body.extend(v)
-                                }
-                                Ok(None) => {
-                                    r2.borrow_mut().data_end = Some(Ok(()));
-                                    break;
-                                }
+                        let resp = http::Response::builder().status(200).body(()).unwrap();
+                        if split_after > 0 {
+                            // the application may split the stream in the middle of the body
+                            let st = c03_body!(s, r2, split_after);
+                            if st == 2 {
+                                return;
+                            }
+                            obs::count("probe.split_in_the_middle_of_the_body");
+                            let (mut tx, mut rx) = s.split();
+                            if st == 0 && c03_body!(rx, r2, usize::MAX) == 2 {
+                                return;
+                            }
+                            match rx.recv_trailers().await {
+                                Ok(t) => r2.borrow_mut().trailers = Some(Ok(t.map(|m| fields_of(&m)))),
                                 Err(e) => {
-                                    r2.borrow_mut().data_end = Some(Err(sout(&e)));
+                                    r2.borrow_mut().trailers = Some(Err(sout(&e)));
                                     return;
                                 }
                             }
+                            if tx.send_response(resp).await.is_ok() {
+                                let _ = tx.finish().await;
+                            }
+                            return;
+                        }
+                        if c03_body!(s, r2, usize::MAX) == 2 {
+                            return;
                         }
                         match s.recv_trailers().await {
                             Ok(t) => r2.borrow_mut().trailers = Some(Ok(t.map(|m| fields_of(&m)))),
@@ -237,7 +276,6 @@ pub(crate) fn run_server(net: &Shared, rec: &Rc<RefCell<Obs>>, ex: &mut Exec) {
                                 return;
                             }
                         }
-                        let resp = http::Response::builder().status(200).body(()).unwrap();
                         if s.send_response(resp).await.is_ok() {
                             let _ = s.finish().await;
                         }
@@ -256,7 +294,7 @@ pub(crate) fn run_server(net: &Shared, rec: &Rc<RefCell<Obs>>, ex: &mut Exec) {
     });
 }
 
-pub(crate) fn run_client(net: &Shared, rec: &Rc<RefCell<Obs>>, ex: &mut Exec) {
+pub(crate) fn run_client(net: &Shared, rec: &Rc<RefCell<Obs>>, ex: &mut Exec, split_after: usize) {
     let conn: SimConn = net::conn(net, CLIENT);
     let r = rec.clone();
     ex.spawn("cli", async move {
@@ -298,22 +336,27 @@ pub(crate) fn run_client(net: &Shared, rec: &Rc<RefCell<Obs>>, ex: &mut Exec) {
                 return;
             }
         }
-        loop {
-            match s.recv_data().await {
-                Ok(Some(d)) => {
-                    let v = read_all(d);
-                    obs::ev("app.recv_data", 0, v.len() as u64);
-                    r.borrow_mut().body.extend(v)
+        if split_after > 0 {
+            let st = c03_body!(s, r, split_after);
+            if st != 2 {
+                obs::count("probe.split_in_the_middle_of_the_body");
+                let (tx, mut rx) = s.split();
+                let st = if st == 0 { c03_body!(rx, r, usize::MAX) } else { st };
+                if st == 1 {
+                    match rx.recv_trailers().await {
+                        Ok(t) => r.borrow_mut().trailers = Some(Ok(t.map(|m| fields_of(&m)))),
+                        Err(e) => r.borrow_mut().trailers = Some(Err(sout(&e))),
+                    }
                 }
-                Ok(None) => {
-                    r.borrow_mut().data_end = Some(Ok(()));
-                    break;
-                }
-                Err(e) => {
-                    r.borrow_mut().data_end = Some(Err(sout(&e)));
-                    std::future::pending::<()>().await;
-                }
+                std::future::pending::<()>().await;
+                drop(tx);
             }
+            std::future::pending::<()>().await;
+            drop(sr);
+            return;
+        }
+        if c03_body!(s, r, usize::MAX) == 2 {
+            std::future::pending::<()>().await;
         }
         match s.recv_trailers().await {
             Ok(t) => r.borrow_mut().trailers = Some(Ok(t.map(|m| fields_of(&m)))),
@@ -486,7 +529,7 @@ impl Check for C03 {
     fn meta(&self) -> Meta {
         Meta {
             level: "exploration",
-            rule: "frame sequences (valid sequence + at most one inserted/replaced/removed token, over HEADERS, DATA(0), DATA(n), unknown(0/n), CANCEL_PUSH, SETTINGS, GOAWAY, MAX_PUSH_ID, PUSH_PROMISE (server), HTTP/2 types) x ending {FIN, RESET(code) at a drawn byte offset, open} x role {server, client} x drawn chunking, FIN timing, task order and spurious polls; non-trivial = the request stream carried at least one complete frame and at least 2 chunk deliveries or a RESET happened; distinct = distinct schedule signatures",
+            rule: "frame sequences (valid sequence + at most one inserted/replaced/removed token, over HEADERS, DATA(0), DATA(n), unknown(0/n), CANCEL_PUSH, SETTINGS, GOAWAY, MAX_PUSH_ID, PUSH_PROMISE (server), HTTP/2 types) x ending {FIN, RESET(code) at a drawn byte offset, open} x role {server, client} x the stream read whole or split() after 1-3 recv_data calls x drawn chunking, FIN timing, task order and spurious polls; non-trivial = the request stream carried at least one complete frame and at least 2 chunk deliveries or a RESET happened; distinct = distinct schedule signatures",
             real: &["h3::server::Connection/RequestResolver/RequestStream", "h3::client::Connection/SendRequest/RequestStream", "h3::connection::RequestStream", "h3::frame::FrameStream", "h3::qpack stateless codec", "h3 shared state / error propagation"],
             stub: &["QUIC transport (SimQuic)", "executor (simexec)", "peer (script of raw stream actions built with the reference codecs)", "application (follows the documented call pattern)"],
             assumptions: &["frame payloads in the sequences are well-formed, so exactly one RFC rule applies", "client receiving FIN or PUSH_PROMISE before/in a response is left unconstrained (the property speaks of servers)", "under RESET only prefix-consistency is demanded"],
@@ -532,10 +575,12 @@ impl Check for C03 {
         let rec: Rc<RefCell<Obs>> = Default::default();
         let mut ex = Exec::new();
         ex.spurious = draw(3) == 1;
+        // one run in four: the application splits the stream after 1-3 recv_data calls and goes on with the halves
+        let split_after = if draw(4) == 3 { 1 + draw_usize(3) } else { 0 };
         if role_server {
-            run_server(&net, &rec, &mut ex);
+            run_server(&net, &rec, &mut ex, split_after);
         } else {
-            run_client(&net, &rec, &mut ex);
+            run_client(&net, &rec, &mut ex, split_after);
         }
         let stop = ex.run(&mut NetWorld(net.clone()));
         if let Some(p) = &ex.panic {
